@@ -20,7 +20,16 @@ def getRow (j : Json) : Except String Row := do
 
 def natJson (n : Nat) : Json := intJson (Int.ofNat n)
 
+/-- {"op":"seg","n":T,"shape":[…],"tczyx":b} → {"shape":[…],"chunks":[…]} -/
+def handleSeg (j : Json) : Except String Json := do
+  let n ← (← j.getObjVal? "n").getNat?
+  let sh ← (← (← j.getObjVal? "shape").getArr?).toList.mapM (fun x => x.getNat?)
+  let tz ← (← j.getObjVal? "tczyx").getBool?
+  return Json.mkObj [("shape", Json.arr ((segShape n sh tz).map natJson).toArray),
+                     ("chunks", Json.arr ((segChunks sh tz).map natJson).toArray)]
+
 def handle (j : Json) : Except String Json := do
+  if let .ok (Json.str "seg") := j.getObjVal? "op" then return ← handleSeg j
   let ndim ← (← j.getObjVal? "ndim").getNat?
   let frames ← (← (← j.getObjVal? "frames").getArr?).toList.mapM
     (fun fr => do (← fr.getArr?).toList.mapM getRegion)
